@@ -274,6 +274,7 @@ func runScenario(port int, cfg childCfg, sc *scenario, tm time.Duration, snapsho
 		return st != 0
 	}
 	first := make([]bool, len(conns))
+	port0Play := map[string]bool{}
 	for si := range sc.steps {
 		st := &sc.steps[si]
 		c := conns[st.conn]
@@ -302,6 +303,22 @@ func runScenario(port int, cfg childCfg, sc *scenario, tm time.Duration, snapsho
 					return res
 				}
 				first[st.conn] = true
+				// environment determinism: a session that plays over UDP towards client port 0 dies of a writer
+				// error at the first packet of the (continuously fed) stream and takes its connections with it;
+				// wait for that before probing, so that the outcome does not depend on who wins the race
+				if status == 200 && r.method == "SETUP" && c.session != "" {
+					for _, t := range r.transport {
+						if strings.Contains(t, "client_port=0-1") && !strings.Contains(t, "mode=record") && !strings.Contains(t, "multicast") {
+							port0Play[c.session] = true
+						}
+					}
+				}
+				if status == 200 && r.method == "PLAY" && port0Play[c.session] {
+					for dl := time.Now().Add(2 * time.Second); !c.closed && time.Now().Before(dl); {
+						c.checkClosed()
+					}
+					time.Sleep(30 * time.Millisecond)
+				}
 			}
 			alive := probe(c, st.conn)
 			switch {
